@@ -164,6 +164,9 @@ func checkIsolation(c *c10Case) (key, msg string, stats map[string]int) {
 			if strings.Join(alone[k], "\n") != strings.Join(together[k], "\n") {
 				onlyAlone, onlyTogether := diffStrings(alone[k], together[k])
 				key := "C10/file-gets-other-diagnostics-when-linted-together"
+				if strings.Contains(strings.Join(append(append([]string{}, onlyAlone...), onlyTogether...), " "), "is required by") && (strings.Contains(c10Show(c), "required: True") || strings.Contains(c10Show(c), "required: TRUE")) {
+					key = "C10/callee-interface-differs-between-file-and-ast(required: True)"
+				}
 				all := strings.Join(append(onlyAlone, onlyTogether...), "\n")
 				// attribution to a sibling repository whose name is a prefix?
 				for _, r := range c.Repos {
@@ -292,7 +295,23 @@ func genC10World(rt *rapid.T) (*c10Case, []string) {
 		c.Files[repo+"/act/action.yml"] = fmt.Sprintf("name: act\ndescription: d\ninputs:\n  in_%s:\n    description: d\n    required: true\noutputs:\n  out_%s:\n    description: d\nruns:\n  using: node20\n  main: index.js\n", strings.ToLower(R), strings.ToLower(R))
 		c.Files[repo+"/act/index.js"] = ""
 		callee := repo + "/.github/workflows/callee.yml"
-		c.Files[callee] = fmt.Sprintf("on:\n  workflow_call:\n    inputs:\n      p_%s:\n        type: string\n        required: true\n    outputs:\n      o_%s:\n        value: x\njobs:\n  a:\n    runs-on: ubuntu-latest\n    steps:\n      - run: echo ${{ inputs.p_%s }}\n", strings.ToLower(R), strings.ToLower(R), strings.ToLower(R))
+		// the callee's interface is derived in two ways (from the file, or from the AST when the
+		// callee is part of the run): vary everything the derivations look at
+		ity := rapid.SampledFrom([]string{"string", "string", "number", "boolean"}).Draw(rt, "calleetype")
+		ireq := rapid.SampledFrom([]string{"true", "true", "True", "TRUE", "false", ""}).Draw(rt, "calleereq")
+		idef := ""
+		if rapid.IntRange(0, 3).Draw(rt, "calleedef") == 0 {
+			idef = "        default: " + map[string]string{"string": "x", "number": "1", "boolean": "true"}[ity] + "\n"
+		}
+		reqLine := ""
+		if ireq != "" {
+			reqLine = "        required: " + ireq + "\n"
+		}
+		secLine := ""
+		if rapid.Bool().Draw(rt, "calleesecret") {
+			secLine = fmt.Sprintf("    secrets:\n      s_%s:\n        required: %s\n", strings.ToLower(R), rapid.SampledFrom([]string{"true", "True", "false"}).Draw(rt, "secreq"))
+		}
+		c.Files[callee] = fmt.Sprintf("on:\n  workflow_call:\n    inputs:\n      p_%s:\n        type: %s\n%s%s%s    outputs:\n      o_%s:\n        value: x\njobs:\n  a:\n    runs-on: ubuntu-latest\n    steps:\n      - run: echo ${{ inputs.p_%s }}\n", strings.ToLower(R), ity, reqLine, idef, secLine, strings.ToLower(R), strings.ToLower(R))
 		allFiles = append(allFiles, callee)
 		nw := rapid.IntRange(1, 4).Draw(rt, "nw")
 		for i := 0; i < nw; i++ {
